@@ -192,6 +192,31 @@ Proof.
   destruct (Nat.ltb_spec (length f) 16); [reflexivity|lia].
 Qed.
 
+(* the reader on a file of at least 16 bytes, test by test *)
+Lemma read_unfold now f : (16 <= length f)%nat ->
+  read_from_file now f =
+    if (hdr_deadline f <? now)%Z then None
+    else if N.of_nat (length f - 16) <? hdr_size f then None
+    else if 2 ^ 31 <=? hdr_size f then
+      (if crc32 (repeat 0 (N.to_nat (hdr_size f))) =? hdr_crc f then Some (hdr_deadline f, repeat 0 (N.to_nat (hdr_size f))) else None)
+    else
+      (if crc32 (firstn (N.to_nat (hdr_size f)) (skipn 16 f)) =? hdr_crc f
+       then Some (hdr_deadline f, firstn (N.to_nat (hdr_size f)) (skipn 16 f)) else None).
+Proof.
+  intros L. unfold read_from_file, size_fits.
+  destruct (Nat.ltb_spec (length f) 8); [lia|].
+  destruct (hdr_deadline f <? now)%Z; [reflexivity|].
+  destruct (Nat.ltb_spec (length f) 16); [lia|]. cbn [negb andb].
+  destruct (N.of_nat (length f - 16) <? hdr_size f); reflexivity.
+Qed.
+
+Lemma size_fits_spec f : size_fits f = true <-> (16 <= length f)%nat /\ hdr_size f <= N.of_nat (length f - 16).
+Proof.
+  unfold size_fits. destruct (Nat.ltb_spec (length f) 16) as [L|L]; cbn [negb andb].
+  - split; [discriminate|lia].
+  - destruct (N.ltb_spec (N.of_nat (length f - 16)) (hdr_size f)) as [A|A]; cbn [negb]; split; try discriminate; try reflexivity; try lia.
+Qed.
+
 (* everything load can return, in terms of the file it was read from *)
 Lemma read_spec now f t' d' : read_from_file now f = Some (t', d') ->
   (16 <= length f)%nat /\ t' = hdr_deadline f /\ (now <= t')%Z /\
@@ -199,37 +224,52 @@ Lemma read_spec now f t' d' : read_from_file now f = Some (t', d') ->
   (hdr_size f < 2 ^ 31 -> d' = firstn (N.to_nat (hdr_size f)) (skipn 16 f) /\
                           (16 + N.to_nat (hdr_size f) <= length f)%nat).
 Proof.
-  unfold read_from_file.
-  destruct (Nat.ltb_spec (length f) 8) as [L8|L8]; [discriminate|].
+  intros H.
+  assert (16 <= length f)%nat as L16.
+  { destruct (Nat.lt_ge_cases (length f) 16) as [L|L]; [|exact L]. rewrite read_short in H by exact L. discriminate. }
+  rewrite read_unfold in H by exact L16.
   destruct (Z.ltb_spec (hdr_deadline f) now) as [Ld|Ld]; [discriminate|].
-  destruct (Nat.ltb_spec (length f) 16) as [L16|L16]; [discriminate|].
+  destruct (N.ltb_spec (N.of_nat (length f - 16)) (hdr_size f)) as [La|La]; [discriminate|].
   destruct (N.leb_spec (2 ^ 31) (hdr_size f)) as [Lh|Lh].
   - destruct (N.eqb_spec (crc32 (repeat 0 (N.to_nat (hdr_size f)))) (hdr_crc f)) as [E|E]; [|discriminate].
-    intros [= <- <-]. rewrite repeat_length, N2Nat.id.
+    injection H as <- <-. rewrite repeat_length, N2Nat.id.
     repeat split; try assumption; try lia.
-  - destruct (N.ltb_spec (N.of_nat (length f - 16)) (hdr_size f)) as [La|La]; [discriminate|].
-    assert (length (skipn 16 f) = length f - 16)%nat as Lsk by apply skipn_length.
+  - assert (length (skipn 16 f) = length f - 16)%nat as Lsk by apply skipn_length.
     remember (skipn 16 f) as sk eqn:Esk.
     destruct (N.eqb_spec (crc32 (firstn (N.to_nat (hdr_size f)) sk)) (hdr_crc f)) as [E|E]; [|discriminate].
-    intros H. injection H as H1 H2. subst t' d'.
+    injection H as H1 H2. subst t' d'.
     assert (N.to_nat (hdr_size f) <= length f - 16)%nat as La' by lia.
     rewrite firstn_length, Lsk, Nat.min_l by exact La'. rewrite N2Nat.id.
     repeat split; try assumption; try lia.
 Qed.
 
-(* a header with a size field >= 2^31: the result does not depend on the data area at all *)
+(* since the repair: whatever is returned fits into the file, for every value of the size field *)
+Lemma read_fits now f r : read_from_file now f = Some r -> size_fits f = true.
+Proof.
+  intros H.
+  assert (16 <= length f)%nat as L16.
+  { destruct (Nat.lt_ge_cases (length f) 16) as [L|L]; [|exact L]. rewrite read_short in H by exact L. discriminate. }
+  rewrite read_unfold in H by exact L16.
+  destruct (hdr_deadline f <? now)%Z; [discriminate|].
+  destruct (N.ltb_spec (N.of_nat (length f - 16)) (hdr_size f)) as [La|La]; [discriminate|].
+  apply size_fits_spec. split; assumption.
+Qed.
+
+(* a header with a size field >= 2^31 (only a file of more than 2 GiB passes the length test): the result does not
+   depend on the data area, only on the header and on whether the file is long enough *)
 Lemma read_huge_hdr_only now f g :
   (16 <= length f)%nat -> (16 <= length g)%nat -> firstn 16 f = firstn 16 g ->
-  2 ^ 31 <= hdr_size f -> read_from_file now f = read_from_file now g.
+  2 ^ 31 <= hdr_size f -> size_fits f = size_fits g -> read_from_file now f = read_from_file now g.
 Proof.
-  intros Lf Lg E Hh. unfold read_from_file.
+  intros Lf Lg E Hh Hfit. rewrite !read_unfold by assumption.
   assert (hdr_deadline f = hdr_deadline g) as Ed by (rewrite (hdr_deadline_16 f), (hdr_deadline_16 g), E; reflexivity).
   assert (hdr_crc f = hdr_crc g) as Ec by (rewrite (hdr_crc_16 f), (hdr_crc_16 g), E; reflexivity).
   assert (hdr_size f = hdr_size g) as Es by (rewrite (hdr_size_16 f), (hdr_size_16 g), E; reflexivity).
+  unfold size_fits in Hfit. rewrite <- Es in Hfit.
+  destruct (Nat.ltb_spec (length f) 16); [lia|]. destruct (Nat.ltb_spec (length g) 16); [lia|]. cbn [negb andb] in Hfit.
   rewrite <- Ed, <- Ec, <- Es.
-  destruct (Nat.ltb_spec (length f) 8); [lia|]. destruct (Nat.ltb_spec (length g) 8); [lia|].
   destruct (hdr_deadline f <? now)%Z; [reflexivity|].
-  destruct (Nat.ltb_spec (length f) 16); [lia|]. destruct (Nat.ltb_spec (length g) 16); [lia|].
+  destruct (N.of_nat (length f - 16) <? hdr_size f), (N.of_nat (length g - 16) <? hdr_size f); try discriminate; try reflexivity.
   destruct (N.leb_spec (2 ^ 31) (hdr_size f)); [reflexivity|lia].
 Qed.
 
@@ -241,16 +281,16 @@ Lemma read_new_header now t d rest :
     else if N.of_nat (length rest) <? N.of_nat (length d) then None
     else if crc32 (firstn (length d) rest) =? crc32 d then Some (t, firstn (length d) rest) else None.
 Proof.
-  intros Ht Hd Hs. unfold read_from_file.
+  intros Ht Hd Hs.
+  rewrite read_unfold by (rewrite app_length, length_header; lia).
   rewrite (hdr_deadline_16 (header t d ++ rest)), (hdr_crc_16 (header t d ++ rest)), (hdr_size_16 (header t d ++ rest)).
   rewrite firstn16_header, hdr_deadline_header, hdr_crc_header, hdr_size_header by assumption.
   unfold small in Hs. rewrite N.mod_small by (change (2 ^ 32) with 4294967296; change (2 ^ 31) with 2147483648 in Hs; lia).
   rewrite app_length, length_header.
-  destruct (Nat.ltb_spec (16 + length rest) 8); [lia|].
   destruct (t <? now)%Z; [reflexivity|].
-  destruct (Nat.ltb_spec (16 + length rest) 16); [lia|].
-  destruct (N.leb_spec (2 ^ 31) (N.of_nat (length d))); [lia|].
   replace (16 + length rest - 16)%nat with (length rest) by lia.
+  destruct (N.of_nat (length rest) <? N.of_nat (length d)); [reflexivity|].
+  destruct (N.leb_spec (2 ^ 31) (N.of_nat (length d))); [lia|].
   rewrite Nat2N.id.
   assert (skipn 16 (header t d ++ rest) = rest) as ->; [|reflexivity].
   rewrite <- (length_header t d) at 1. rewrite skipn_app, skipn_all, Nat.sub_diag. reflexivity.
